@@ -50,6 +50,7 @@ RULE = (
     "; the small deterministic blocks (slow get during a long walk, ticking sets, cancellatio"
     "ns) run before the enumeration, which may use at most 60% of the time cap."
     " Mode v3-fresh-two-step: first use of a client against an agent with two-step discovery."
+    " The long walk that goes by a parked request has 170 requests."
 )
 ASSUMPTIONS = [
     "operations in one set commute (sets go to private OIDs nobody else reads)",
